@@ -336,11 +336,13 @@ def scene_calls(c):
         vargs = []
         for kk in kinds:
             if kk == "i":
-                vargs.append(d(st.sampled_from(["%d" % d(st.integers(-99, 99)), "(short)%d" % d(st.integers(-9, 9)), "(char)%d" % d(st.integers(0, 99)), "(_Bool)1"])))
+                vargs.append(d(st.sampled_from(["%d" % d(st.integers(-99, 99)), "(short)%d" % d(st.integers(-9, 9)), "(char)%d" % d(st.integers(0, 99)), "(_Bool)1",
+                                                "(short)(anchor[2] * 30000)", "(unsigned char)(anchor[3] * 100)", "(signed char)(anchor[2] * 50)",
+                                                "(unsigned short)(anchor[4] * 20000)", "(_Bool)anchor[5]"])))
             elif kk == "l":
                 vargs.append("%dl" % d(st.integers(-10 ** 12, 10 ** 12)))
             elif kk == "d":
-                vargs.append(d(st.sampled_from(["1.5", "-2.25", "3.0f", "(float)0.5", "1e100"])))
+                vargs.append(d(st.sampled_from(["1.5", "-2.25", "3.0f", "(float)0.5", "1e100", "(float)anchor[2] / 4"])))
             else:
                 vargs.append("(void *)&anchor[%d]" % d(st.integers(0, 7)))
         caller.append("%s_va(\"%s\"%s);" % (f, "".join(kinds), "".join(", " + a for a in vargs)))
